@@ -286,17 +286,23 @@ func Route(t *rapid.T, o RouteOpts) model.Route {
 // SegPool draws a small pool of segments that routes of one case share, so
 // that prefixes coincide and siblings compete.
 func SegPool(t *rapid.T, n int, wild bool) []model.Seg {
+	return SegPoolW(t, n, wild, [3]int{35, 55, 85})
+}
+
+// SegPoolW is SegPool with explicit cumulative weights (out of 100) for
+// static, placeholder and regex; the rest is match-all.
+func SegPoolW(t *rapid.T, n int, wild bool, w3 [3]int) []model.Seg {
 	var pool []model.Seg
 	for i := 0; i < n; i++ {
 		w := rapid.IntRange(0, 99).Draw(t, "poolkind")
 		used := map[string]bool{}
 		var k model.Kind
 		switch {
-		case w < 35:
+		case w < w3[0]:
 			k = model.KStatic
-		case w < 55:
+		case w < w3[1]:
 			k = model.KPlaceholder
-		case w < 85:
+		case w < w3[2]:
 			k = model.KRegex
 		default:
 			k = model.KMatchAll
